@@ -660,6 +660,34 @@ func ruleC12Arms(e *Env) {
 		foreign := ""
 		var at ssa.Instruction
 		limVar := e.V("size", "MaxObjectKeys")
+		// fromDecoded: v is (a load through, a merge of) the pointer a member decoder handed back
+		var fromDecoded func(v ssa.Value, depth int) bool
+		fromDecoded = func(v ssa.Value, depth int) bool {
+			if depth > 6 {
+				return false
+			}
+			switch x := v.(type) {
+			case *ssa.Extract:
+				if c, ok := x.Tuple.(*ssa.Call); ok {
+					if g := e.C.StaticCallee(&c.Call); g != nil && (g.Name() == "decodeValue" || g.Name() == "decodeUnit") {
+						return true
+					}
+				}
+			case *ssa.Phi:
+				for _, ed := range x.Edges {
+					if fromDecoded(ed, depth+1) {
+						return true
+					}
+				}
+			case *ssa.UnOp:
+				return x.Op == token.MUL && fromDecoded(x.X, depth+1)
+			case *ssa.Convert:
+				return fromDecoded(x.X, depth+1)
+			case *ssa.ChangeType:
+				return fromDecoded(x.X, depth+1)
+			}
+			return false
+		}
 		okCond := func(cond ssa.Value) bool {
 			for i := 0; i < 3; i++ {
 				if u, ok := cond.(*ssa.UnOp); ok && u.Op == token.NOT {
@@ -685,7 +713,14 @@ func ruleC12Arms(e *Env) {
 				}
 				if _, isK := x.Y.(*ssa.Const); isK {
 					switch l := x.X.(type) {
-					case *ssa.Call, *ssa.Lookup: // normalised key / its kind against a constant
+					case *ssa.Call: // normalised key / its kind against a constant — not a measure of a decoded member (`len(*unit) > 2`)
+						for _, a := range l.Call.Args {
+							if fromDecoded(a, 0) {
+								return false
+							}
+						}
+						return true
+					case *ssa.Lookup:
 						return true
 					case *ssa.BinOp: // r & bit against 0
 						return l.Op == token.AND
@@ -706,16 +741,8 @@ func ruleC12Arms(e *Env) {
 					continue
 				}
 				// *value / *unit written after decoding
-				src := st.Addr
-				if ph, ok := src.(*ssa.Phi); ok && len(ph.Edges) > 0 {
-					src = ph.Edges[len(ph.Edges)-1]
-				}
-				if ex, ok := src.(*ssa.Extract); ok {
-					if c, ok := ex.Tuple.(*ssa.Call); ok {
-						if g := e.C.StaticCallee(&c.Call); g != nil && (g.Name() == "decodeValue" || g.Name() == "decodeUnit") && foreign == "" {
-							foreign, at = "a store through the result of "+g.Name(), st
-						}
-					}
+				if fromDecoded(st.Addr, 0) && foreign == "" {
+					foreign, at = "a store through the pointer a member decoder handed back", st
 				}
 			}
 		}
